@@ -25,7 +25,8 @@ REQUIRED = ['mon.flashes_completed', 'mon.images_compared', 'mon.load_buffer_pac
             'mon.reply_scripts', 'mon.aborted_after_failure', 'mon.page_override', 'mon.exact_multiples',
             'mon.flashes_with_progress_callback', 'mon.late_answer_then_failing_write',
             'mon.second_flash_with_the_same_bootloader', 'mon.unanswered_write_on_a_busy_downlink',
-            'mon.two_target_sessions_with_duplicated_info_answers']
+            'mon.two_target_sessions_with_duplicated_info_answers', 'mon.packages_flashed',
+            'mon.packages_that_update_the_soft_device']
 EXHAUSTIVE = {'quick': False, 'thorough': False}
 DESC_TIMEOUT = 1200
 
@@ -44,6 +45,8 @@ def cases(tier, seed):
         out.append({'ps': ps, 'bp': bp, 'fp': fp, 'mode': 'lengths', 'seed': seed})
     for g in ((1024, 10, 1024), (1024, 1, 128), (64, 4, 40)):
         out.append({'ps': g[0], 'bp': g[1], 'fp': g[2], 'mode': 'realistic', 'seed': seed})
+    for i in range(8 if tier == 'quick' else 48):
+        out.append({'ps': 0, 'bp': 0, 'fp': 0, 'mode': 'package', 'seed': seed * 1000 + i, 'n': 10})
     nf = 12 if tier == 'quick' else 40
     for i in range(nf):
         ps, bp, fp = rnd.choice(geos)
@@ -399,11 +402,227 @@ def two_targets(ctx, rnd, label):
                                                                        bad=[str(b) for b in (tt.bad + link.bad)[:2]]))
 
 
+# ------------------------------------------------------------------------------------------ whole packages
+class PkgTarget(Target):
+    """Target of a Crazyflie 2 in bootloader mode that also answers the reset commands."""
+
+    def __init__(self, dev, *a):
+        Target.__init__(self, *a)
+        self.dev = dev
+
+    def handle(self, header, data):
+        if header == 0xFF and len(data) >= 2 and data[0] == self.tid and data[1] == 0xFF:
+            self.out.append(bytes([self.tid, 0xFF, 0x11, 0x22, 0x33, 0x44, 0x55, 0x66]))
+            return
+        if header == 0xFF and len(data) >= 2 and data[0] == self.tid and data[1] == 0xF0:
+            self.dev.reset(self, data[2] if len(data) > 2 else None)
+            return
+        Target.handle(self, header, data)
+
+
+class PkgDevice:
+    """Both targets; a reset of the nRF51 installs a staged bootloader+softdevice image, after which the bootloader
+    reports the start page of the new soft device."""
+
+    def __init__(self, stm_geo, nrf_geo, staged, new_sp):
+        self.t = {0xFF: PkgTarget(self, 0xFF, *stm_geo), 0xFE: PkgTarget(self, 0xFE, *nrf_geo)}
+        self.staged, self.new_sp = staged, new_sp
+        self.epoch = 0
+        self.epochs = []          # per finished epoch: {tid: pages written}
+        self.bad = []
+        self.links = []
+
+    def reset(self, t, mode):
+        if t.tid != 0xFE:
+            return
+        n = self.t[0xFE]
+        self.epochs.append({tid: set(x.written) for tid, x in self.t.items()})
+        for x in self.t.values():
+            x.written.clear()
+            del x.out[:]
+        self.epoch += 1
+        if self.staged is not None:
+            page = n.fp - len(self.staged) // n.ps
+            if bytes(n.flash[page * n.ps:page * n.ps + len(self.staged)]) == self.staged and n.sp != self.new_sp:
+                n.sp = self.new_sp
+                n.flash[0:n.sp * n.ps] = b'\x5D' * (n.sp * n.ps)        # the soft device
+                n.flash[n.sp * n.ps:] = b'\xFF' * (len(n.flash) - n.sp * n.ps)
+                self.installed = True
+
+
+class PkgLink:
+    def __init__(self, dev, uri):
+        self.dev, self.uri = dev, uri.split('?')[0]
+        self.closed = False
+        dev.links.append(self)
+
+    def scan_selected(self, uris):
+        return (uris[0],)
+
+    def send_packet(self, pk):
+        d = bytes(pk.data)
+        if self.closed:
+            self.dev.bad.append(('packet sent on a closed link', d[:4].hex()))
+            return True
+        if 1 + len(d) > 32:
+            self.dev.bad.append(('frame larger than 32 bytes', len(d) + 1))
+        t = self.dev.t.get(d[0]) if d else None
+        if t is not None:
+            t.handle(pk.header, d)
+        return True
+
+    def receive_packet(self, wait=0):
+        from cflib.crtp.crtpstack import CRTPPacket
+        for t in self.dev.t.values():
+            if t.out:
+                return CRTPPacket(0xFF, list(t.out.pop(0)))
+        return None
+
+    def close(self):
+        self.closed = True
+
+
+def run_package(desc, ctx):
+    """Bootloader.start_bootloader() + Bootloader.flash(<zip>) against both targets: every artifact of the package lands at
+    the start page its target reports at that moment (the nRF51 is re-started into a new bootloader when the package
+    updates the soft device), the staged bootloader+softdevice at the override page, and no other page is touched."""
+    import json
+    import os
+    import tempfile
+    import types
+    import zipfile
+    import cflib.bootloader as blmod
+    import cflib.bootloader.cloader as clmod
+    import cflib.crtp
+    from cflib.bootloader import Bootloader
+    rnd = random.Random(desc['seed'])
+    clock = {'t': 0.0}
+    fake_time = types.SimpleNamespace(time=lambda: clock['t'], sleep=lambda d: clock.__setitem__('t', clock['t'] + d))
+    old = (blmod.time, clmod.time, cflib.crtp.get_link_driver)
+    blmod.time = clmod.time = fake_time
+    try:
+        for it in range(desc['n']):
+            old_sp, new_sp = rnd.choice(((88, 108), (108, 88), (88, 108)))
+            sd_name = {88: 'sd-s110', 108: 'sd-s130'}
+            update_sd = rnd.random() < 0.7
+            stm_geo = (1024, rnd.choice((10, 4)), rnd.choice((1024, 128)), rnd.choice((16, 4)))
+            nrf_geo = (1024, 1, rnd.choice((232, 256)), old_sp)
+            sd_bl = rnd.randbytes(1024 * rnd.randint(1, 6)) if update_sd else None
+            dev = PkgDevice(stm_geo, nrf_geo, sd_bl, new_sp)
+            nrf_fw = rnd.randbytes(rnd.randint(1, 5 * 1024)) if rnd.random() < 0.85 else None
+            stm_fw = rnd.randbytes(rnd.randint(1, 12 * 1024)) if rnd.random() < 0.7 else None
+            if nrf_fw is None and stm_fw is None:
+                nrf_fw = rnd.randbytes(rnd.randint(1, 3000))
+            files = []
+            if stm_fw is not None:
+                files.append(('cf2.bin', stm_fw, {'platform': 'cf2', 'target': 'stm32', 'type': 'fw', 'release': '2025.02',
+                                                   'repository': 'crazyflie-firmware'}))
+            if nrf_fw is not None:
+                files.append(('cf2_nrf.bin', nrf_fw, {'platform': 'cf2', 'target': 'nrf51', 'type': 'fw', 'release': '2025.02',
+                                                       'repository': 'crazyflie2-nrf-firmware',
+                                                       'requires': [sd_name[new_sp if update_sd else old_sp]]}))
+            if sd_bl is not None:
+                files.append(('sd_bl.bin', sd_bl, {'platform': 'cf2', 'target': 'nrf51', 'type': 'bootloader+softdevice',
+                                                    'release': '1.%d' % rnd.randint(0, 9), 'repository': 'crazyflie2-nrf-bootloader',
+                                                    'provides': [sd_name[new_sp]]}))
+            rnd.shuffle(files)
+            tmp = tempfile.mkdtemp(prefix='vf_c12_')
+            zpath = os.path.join(tmp, 'update.zip')
+            with zipfile.ZipFile(zpath, 'w') as zf:
+                man = {'version': 2, 'files': {}}
+                for name, content, meta in files:
+                    zf.writestr(name, content)
+                    man['files'][name] = meta
+                zf.writestr('manifest.json', json.dumps(man))
+            cflib.crtp.get_link_driver = lambda uri, *a, **k: PkgLink(dev, uri)
+            warm = rnd.random() < 0.5
+            exc = None
+            out_old = sys.stdout
+            sys.stdout = io.StringIO()
+            try:
+                bl = Bootloader('radio://0/80/2M/E7E7E7E7E7')
+                if rnd.random() < 0.5:
+                    bl.progress_cb = lambda m, p: None
+                if not bl.start_bootloader(warm_boot=warm):
+                    raise RuntimeError('bootloader did not start')
+                # (with an empty target list a warm-booted Crazyflie would go on to its decks over a firmware link)
+                bl.flash(zpath, [blmod.Target('cf2', 'stm32', 'fw', [], [])] if (warm or rnd.random() < 0.5) else [])
+            except Exception as e:  # noqa
+                import traceback
+                exc = traceback.format_exc()[-500:]
+            finally:
+                sys.stdout = out_old
+                os.remove(zpath)
+                os.rmdir(tmp)
+            ctx.evals()
+            ctx.count('mon.packages_flashed')
+            info = {'case': 'package', 'artifacts': [(n, len(c)) for n, c, _ in files], 'nrf51_start_page_before': old_sp,
+                    'package_updates_soft_device': update_sd, 'nrf51_start_page_of_new_bootloader': new_sp if update_sd else old_sp,
+                    'stm32_geometry': stm_geo, 'warm_boot': warm}
+            rp = {'mode': 'package', 'seed': desc['seed'], 'n': it + 1, 'ps': 0, 'bp': 0, 'fp': 0}
+            if exc is not None:
+                ctx.violate('flash:package:raised', dict(info, error=exc), replay=rp)
+                continue
+            nrf, stm = dev.t[0xFE], dev.t[0xFF]
+            dev.epochs.append({tid: set(x.written) for tid, x in dev.t.items()})
+            # warm boot re-starts the nRF51 once before anything is flashed: drop the empty epochs in front
+            ep = [e for e in dev.epochs]
+            while len(ep) > 1 and not ep[0][0xFE] and not ep[0][0xFF] and (warm and len(ep) > (2 if update_sd else 1)):
+                ep.pop(0)
+            problems = [str(b) for b in (dev.bad + nrf.bad + stm.bad)[:3]]
+
+            def pages(sp_, n_, ps_):
+                return set(range(sp_, sp_ + (n_ - 1) // ps_ + 1))
+            if update_sd:
+                ctx.count('mon.packages_that_update_the_soft_device')
+                if not getattr(dev, 'installed', False) or len(ep) != 2:
+                    problems.append('the staged bootloader+softdevice was not installed by the reset (epochs %d)' % len(ep))
+                else:
+                    stage = nrf.fp - len(sd_bl) // 1024
+                    want0 = {old_sp} | pages(stage, len(sd_bl), 1024)
+                    if ep[0][0xFE] != want0:
+                        problems.append('before the restart nRF51 pages %s written, expected %s' % (sorted(ep[0][0xFE]), sorted(want0)))
+                    want1 = pages(new_sp, len(nrf_fw), 1024) if nrf_fw is not None else set()
+                    if ep[1][0xFE] != want1:
+                        problems.append('after the restart (start page %d) nRF51 pages %s written, expected %s'
+                                        % (new_sp, sorted(ep[1][0xFE])[:8], sorted(want1)[:8]))
+                        ctx.count('obs.nrf51_pages_differ_after_restart')
+                    if nrf_fw is not None and bytes(nrf.flash[new_sp * 1024:new_sp * 1024 + len(nrf_fw)]) != nrf_fw:
+                        problems.append('nRF51 firmware is not in flash at start page %d' % new_sp)
+                    if any(b != 0x5D for b in nrf.flash[0:new_sp * 1024]):
+                        problems.append('soft device region overwritten')
+                stm_written = set().union(*[e[0xFF] for e in ep])
+            else:
+                want = pages(old_sp, len(nrf_fw), 1024) if nrf_fw is not None else set()
+                got = set().union(*[e[0xFE] for e in ep])
+                if got != want:
+                    problems.append('nRF51 pages %s written, expected %s' % (sorted(got)[:8], sorted(want)[:8]))
+                if nrf_fw is not None and bytes(nrf.flash[old_sp * 1024:old_sp * 1024 + len(nrf_fw)]) != nrf_fw:
+                    problems.append('nRF51 firmware is not in flash at start page %d' % old_sp)
+                stm_written = set().union(*[e[0xFF] for e in ep])
+            wants = pages(stm_geo[3], len(stm_fw), 1024) if stm_fw is not None else set()
+            if stm_written != wants:
+                problems.append('STM32 pages %s written, expected %s' % (sorted(stm_written)[:8], sorted(wants)[:8]))
+            if stm_fw is not None and bytes(stm.flash[stm_geo[3] * 1024:stm_geo[3] * 1024 + len(stm_fw)]) != stm_fw:
+                problems.append('STM32 firmware is not in flash at its start page')
+            ctx.count('mon.images_compared', len(files))
+            ctx.nontrivial(('package', old_sp, new_sp, update_sd, tuple(len(c) for _, c, _ in files), stm_geo))
+            if problems:
+                ctx.violate('flash:package:artifact-not-at-the-start-page-its-target-reports', dict(info, problems=problems), replay=rp)
+            if it == 0:
+                ctx.sample(dict(info, epochs=[{hex(k): sorted(v)[:6] for k, v in e.items()} for e in ep]))
+    finally:
+        blmod.time, clmod.time, cflib.crtp.get_link_driver = old
+
+
 def run(desc, ctx):
     core.setup_path()
     import logging
     logging.disable(logging.CRITICAL)
     ps, bp, fp = desc['ps'], desc['bp'], desc['fp']
+    if desc['mode'] == 'package':
+        run_package(desc, ctx)
+        return
     rnd = random.Random(hash((ps, bp, fp, desc['seed'])) & 0xFFFFFFF)
     if desc['mode'] == 'single':
         script = {(a, b): c for a, b, c in desc['script']}
